@@ -72,13 +72,16 @@ Definition evaluate_likelihood_calls : nat := 1.
 
 
 class Counter:
-    def __init__(self, blobs):
+    def __init__(self, blobs, hole=False):
         self.rows = 0
         self.blobs = blobs
+        self.hole = hole
 
     def scalar(self, x):
         self.rows += 1
         v = -0.5 * float(np.sum(x ** 2)) - 0.1 * float(np.sum(np.cos(3 * x)))
+        if self.hole and x[0] < -1.0:
+            v = -np.inf  # a hard constraint: zero likelihood on a third of the prior
         return (v, float(x[0] + 1.0)) if self.blobs else v
 
     def vec(self, X):
@@ -127,8 +130,8 @@ class RichPool(PoolLike):
 
 def one(cfg, strategy, seed, blobs):
     from tempest import Sampler
-    c = Counter(blobs)
     kw = dict(cfg)
+    c = Counter(blobs, hole=kw.pop("hole", False))
     if strategy == "vectorize":
         like, kw["vectorize"] = c.vec, True
     else:
@@ -150,7 +153,7 @@ def one(cfg, strategy, seed, blobs):
 
 
 def sweep(run, tier, rng):
-    cfgs = [dict(clustering=False), dict(clustering=True, sample="rwm"), dict(clustering=False, resample="syst")]
+    cfgs = [dict(clustering=False), dict(clustering=True, sample="rwm"), dict(clustering=False, resample="syst", hole=True)]
     if tier != "quick":
         cfgs += [dict(clustering=True, resample="syst"), dict(clustering=False, sample="rwm", volume_variation=0.5)]
     for ci, cfg in enumerate(cfgs):
